@@ -679,6 +679,72 @@ type c03stats struct {
 func (s *c03stats) add(k string, n int64) { s.mu.Lock(); s.m[k] += n; s.mu.Unlock() }
 
 // C03 entry point.
+// runC03sameBlock: the fee requirement follows the parameters as they are when the transaction is
+// judged: a governance change of the fee multipliers binds the transactions behind it in the SAME
+// block (section G of the matrix). Each block: a paying transfer, the parameter change, then
+// transfers paying the old and the new requirement.
+func runC03sameBlock(stats *c03stats) []c03result {
+	var out []c03result
+	cfg := c03cfg("default1")
+	d := chain.NewDriver(cfg)
+	defer d.Close()
+	d.RunBlock(chain.Block{}, nil)
+	base := chain.PosFees["send"]
+	fm := func(sendMult, def int64) string {
+		return mj(authTypes.FeeMultipliers{FeeMultis: []authTypes.FeeMultiplier{{Key: "unjail", Multiplier: 1}, {Key: "send", Multiplier: sendMult}}, Default: def})
+	}
+	type step struct {
+		label  string
+		tx     chain.TxSpec
+		accept bool
+	}
+	send := func(fee int64) chain.TxSpec { return chain.TxSpec{Msg: "send", From: 3, To: 4, Amount: 1, Fee: fee} }
+	blocks := [][]step{
+		{{"send paying 1x (multiplier 1)", send(base), true},
+			{"governance: send x3", chain.TxSpec{Msg: "change_param", From: 2, Key: "auth/FeeMultipliers", Val: fm(3, 1)}, true},
+			{"send paying 1x after the raise", send(base), false},
+			{"send paying 3x-1 after the raise", send(3*base - 1), false},
+			{"send paying 3x after the raise", send(3 * base), true}},
+		{{"send paying 3x (multiplier 3)", send(3 * base), true},
+			{"governance: send x2", chain.TxSpec{Msg: "change_param", From: 2, Key: "auth/FeeMultipliers", Val: fm(2, 1)}, true},
+			{"send paying 2x after the cut", send(2 * base), true},
+			{"send paying 2x-1 after the cut", send(2*base - 1), false}},
+	}
+	for bi, steps := range blocks {
+		var evs []chain.Event
+		for i := range steps {
+			evs = append(evs, chain.Event{Kind: "tx", Tx: &steps[i].tx})
+		}
+		var feeBefore sdk.Int
+		got := make([]bool, len(steps))
+		res := d.RunBlock(chain.Block{Events: evs}, &chain.Hooks{
+			BeforeEvent: func(dd *chain.Driver, i int, e chain.Event) {
+				feeBefore = dd.App.Decode(dd.App.RawDump()).FeePool
+			},
+			AfterEvent: func(dd *chain.Driver, i int, e chain.Event, tr *chain.TxResult) {
+				after := dd.App.Decode(dd.App.RawDump()).FeePool
+				got[i] = tr.Code == 0 || after.Sub(feeBefore).IsPositive() || hasActionEvent(*tr)
+			},
+		})
+		for i, st := range steps {
+			stats.add("cases", 1)
+			stats.add("same-block-parameter-change", 1)
+			if res.Panic != "" || i >= len(res.Txs) {
+				out = append(out, c03result{"C03|same-block|panic", fmt.Sprintf("block %d panicked: %s", bi+1, res.Panic), c03case{Name: "G"}})
+				break
+			}
+			if got[i] != st.accept {
+				kind := "accepted-but-must-reject|fee-below-required"
+				if st.accept {
+					kind = "rejected-but-must-accept"
+				}
+				out = append(out, c03result{"C03|" + kind + "|after-parameter-change-in-the-same-block", fmt.Sprintf("block %d step %d (%s): ante accepted=%v, the fee multipliers in force at that point require accept=%v (code %d, log %.160s)", bi+1, i, st.label, got[i], st.accept, res.Txs[i].Code, res.Txs[i].Log), c03case{Name: "G", Msg: "send", Fee: st.label}})
+			}
+		}
+	}
+	return out
+}
+
 func C03(tier string) int {
 	run := ev.NewRun("C03", tier, "exploration")
 	all := c03cases()
@@ -717,6 +783,9 @@ func C03(tier string) int {
 		}
 	}
 	wg.Wait()
+	for _, r := range runC03sameBlock(stats) {
+		run.Report(r.sig, r.what, r.c)
+	}
 	classes := 0
 	for range stats.m {
 		classes++
@@ -724,7 +793,7 @@ func C03(tier string) int {
 	run.Set("evaluations", int64(len(all)))
 	run.Set("distinct_nontrivial", int64(classes))
 	run.Set("outcome_classes", stats.m)
-	run.Set("rule", "union of complete sub-products: A message kind(7) x signer account kind(ed25519, secp256k1, 2-key multisig, nested multisig) x signing variant (own / other key same type / other type / foreign, swapped, short, duplicate, extra component / other multisig / single key) x key source (attached / from state); A2 unknown and key-less accounts, and an account whose stored key is another party's; B every post-signing mutation (chain id, message field, fee amount, fee denom, memo, memo white space, entropy, signature bit flip, truncation, empty) x message kind x signer kind; C fee (req-1, req, req+1, none) x fee-multiplier setting (default 1; keyed list unjail x1, send x3, stake x2; default 0) x message kind x signer kind; D balance grid; E memo bounds; F replays (after commit: judged; same block: recorded). distinct_nontrivial = distinct outcome classes (accepted / rejected-by-reason) observed")
+	run.Set("rule", "union of complete sub-products: A message kind(7) x signer account kind(ed25519, secp256k1, 2-key multisig, nested multisig) x signing variant (own / other key same type / other type / foreign, swapped, short, duplicate, extra component / other multisig / single key) x key source (attached / from state); A2 unknown and key-less accounts, and an account whose stored key is another party's; B every post-signing mutation (chain id, message field, fee amount, fee denom, memo, memo white space, entropy, signature bit flip, truncation, empty) x message kind x signer kind; C fee (req-1, req, req+1, none) x fee-multiplier setting (default 1; keyed list unjail x1, send x3, stake x2; default 0) x message kind x signer kind; D balance grid; E memo bounds; F replays (after commit: judged; same block: recorded); G fee requirement after a governance change of the multipliers earlier in the same block. distinct_nontrivial = distinct outcome classes (accepted / rejected-by-reason) observed")
 	run.Sample(c03case{Name: "A", Msg: "send", Signer: "ed25519", Variant: "other-same-type", KeySrc: "attached", Mut: "none", Fee: "req", Memo: "empty", Replay: "first", FeeMult: "default1"})
 	run.Sample(c03case{Name: "C", Msg: "send", Signer: "multisig", Variant: "own", KeySrc: "attached", Mut: "none", Fee: "req-1", Memo: "empty", Replay: "first", FeeMult: "type3"})
 	run.Assume("signature validity is decided by Tendermint's ed25519/secp256k1 primitives and the positional N-of-N rule; signatures are made and judged over the harness's own rendering of the documented sign bytes (key-sorted JSON of chain id, entropy, fee, memo, message sign bytes), not over the repository's StdSignBytes",
